@@ -14,6 +14,14 @@
 //     literal starts with node.ResetSuperglobals(); routesFinalized: every
 //     `….source.Handle(pattern, h)` passes an h assigned from finalizeHandler(…).
 //   - pkgVars: all package-level variables of std/net/http and of the node files.
+//   - nodeWrites: every place where an evaluation-time method of a type of package node (a
+//     method with a `data.Context` parameter — GetValue, Call, SetValue, … — or a method of the
+//     same receiver it calls, transitively, also through embedded types) stores into a field of
+//     its own receiver: `r.f = …`, `r.f[k] = …`, `r.f.g = …`, `r.f++`, `&r.f`, `delete(r.f, k)`;
+//     with the flag `parserBuilt`: package parser constructs the type (`&node.T{…}`, or a
+//     `node.NewX(…)` whose body builds a T, transitively) — i.e. the receiver is a syntax node,
+//     shared by every request that runs the code, not an object made per evaluation; and the
+//     flag `called`: a call `.method(` exists in some non-test Go file of the repository.
 //
 // Anything not understood becomes a `shape` entry (which fails the obligation).
 // The translator never executes repository code.
@@ -208,6 +216,9 @@ func main() {
 		}
 		cells[kind] = cell{kind, name, vars, reset}
 	}
+
+	// ------------------------------------------------------------ stores into the receiver node
+	nodeWrites := scanNodeWrites(a.Repo, nodeFiles, bad)
 
 	// ------------------------------------------------------------ package std/net/http
 	fset, httpFiles, err := ex.ParseDir(a.Repo, "std/net/http")
@@ -544,6 +555,10 @@ func main() {
 		pl = append(pl, fmt.Sprintf("    ⟨%s, %s, %s⟩", ex.LeanString(v.pkg), ex.LeanString(v.name), ex.LeanString(v.typ)))
 	}
 	sb.WriteString(strings.Join(pl, ",\n"))
+	var nwl []string
+	for _, w := range nodeWrites {
+		nwl = append(nwl, fmt.Sprintf("    ⟨%s, %s, %s, %v, %v⟩", ex.LeanString(w.typ), ex.LeanString(w.method), ex.LeanString(w.field), w.parserBuilt, w.called))
+	}
 	sort.Strings(shape)
 	var sl []string
 	for i, s := range shape {
@@ -551,13 +566,13 @@ func main() {
 			sl = append(sl, ex.LeanString(s))
 		}
 	}
-	fmt.Fprintf(&sb, "\n  ],\n  shape := [%s]\n}\n\nend Generated.C11Superglobals\n", strings.Join(sl, ", "))
+	fmt.Fprintf(&sb, "\n  ],\n  nodeWrites := [\n%s\n  ],\n  shape := [%s]\n}\n\nend Generated.C11Superglobals\n", strings.Join(nwl, ",\n"), strings.Join(sl, ", "))
 	if err := ex.WriteIfChanged(a.Out, "C11Superglobals.lean", sb.String()); err != nil {
 		fmt.Fprintln(os.Stderr, err)
 		os.Exit(1)
 	}
-	fmt.Printf("C11Superglobals: %d cells, %d request functions, %d package vars, outerReset=%v routesFinalized=%v, %d shape notes\n",
-		len(cl), len(el), len(pl), outerReset, routesFinalized, len(sl))
+	fmt.Printf("C11Superglobals: %d cells, %d request functions, %d package vars, %d receiver stores in evaluation methods of package node, outerReset=%v routesFinalized=%v, %d shape notes\n",
+		len(cl), len(el), len(pl), len(nwl), outerReset, routesFinalized, len(sl))
 }
 
 func unparen(e ast.Expr) ast.Expr {
